@@ -231,23 +231,27 @@ def St.pollOk (s : St) (c : Nat) (sendFail immFail : Bool) : St :=
     | .connected =>
       if s.timedOut k then s.connDisconnect c none immFail else s
 
+/-- `conn.disconnect(); self._unknownConnections.discard(conn)` for a first message that names nobody. -/
+def St.hsReject (s : St) (c : Nat) : St :=
+  let s := s.connDisconnect c none false
+  { s with unknown := eraseAll c s.unknown }
+
+/-- The tail of `_onIncomingMessageReceived` once the node is known, after D52. -/
+def St.hsRegister (s : St) (c : Nat) (n : NodeId) (ro : Bool) : St :=
+  let s := { s with unknown := eraseAll c s.unknown }
+  let s := match lookup n s.reg with                       -- D52: close the connection being replaced
+    | some old => s.connDisconnect old (some n) false
+    | none => s
+  let s := { s with reg := setKey n c s.reg }
+  let s := match s.conn? c with
+    | some k => s.setConn c { k with cb := .deliver n }
+    | none => s
+  let s := { s with view := insertSet n s.view }
+  s.emit (if ro then .roConn n else .nodeConn (some n))
+
 /-- `_onIncomingMessageReceived(conn, message)` (no encryption), after D52. Returns the state and whether an
 exception escaped. -/
 def St.onIncomingMessage (s : St) (c : Nat) (m : Msg) : St × Bool :=
-  let reject (s : St) : St × Bool :=                       -- `conn.disconnect(); self._unknownConnections.discard(conn)`
-    let s := s.connDisconnect c none false
-    ({ s with unknown := eraseAll c s.unknown }, false)
-  let register (s : St) (n : NodeId) (ro : Bool) : St × Bool :=
-    let s := { s with unknown := eraseAll c s.unknown }
-    let s := match lookup n s.reg with                     -- D52: close the connection being replaced
-      | some old => s.connDisconnect old (some n) false
-      | none => s
-    let s := { s with reg := setKey n c s.reg }
-    let s := match s.conn? c with
-      | some k => s.setConn c { k with cb := .deliver n }
-      | none => s
-    let s := { s with view := insertSet n s.view }
-    (s.emit (if ro then .roConn n else .nodeConn (some n)), false)
   match m with
   | .util known replyFail =>
     if known then
@@ -255,12 +259,12 @@ def St.onIncomingMessage (s : St) (c : Nat) (m : Msg) : St × Bool :=
       (if replyFail then s.connDisconnect c none false else s, false)
     else (s.emit .raised, true)                            -- `message in self._nodeAddrToNode` on a list
   | .unhashable _ => (s.emit .raised, true)
-  | .addr a => if a ∈ s.nodes then register s (.tcp a) false else reject s
-  | .hashable _ => reject s
+  | .addr a => if a ∈ s.nodes then (s.hsRegister c (.tcp a) false, false) else (s.hsReject c, false)
+  | .hashable _ => (s.hsReject c, false)
   | .readonly =>
     let n := NodeId.ro s.roCounter
     let s := { s with roNodes := insertSet s.roCounter s.roNodes, roCounter := s.roCounter + 1 }
-    register s n true
+    (s.hsRegister c n true, false)
 
 /-- The message loop of `__processConnection` for object `c` whose socket generation was `gen` at the start. -/
 def St.processMsgs (s : St) (c : Nat) (gen : Nat) : List Msg → St
